@@ -80,44 +80,13 @@ def recvWith (fixed : Bool) (last chanId : Nat) (chunks : List (Option CI)) : VO
 
 def recv := recvWith true
 
-/-! ### the server transport collecting chunks of a message (policy None, well-formed MSG chunks) -/
-
 inductive Fin where
   | final | intermediate | abort
 deriving Repr, DecidableEq
 
-structure Srv where
-  chanId : Nat                 -- secure_channel.secure_channel_id()
-  last : Nat                   -- last_received_sequence_number
-  pending : List CI            -- pending_chunks
-  closed : Bool                -- process_chunk returned Err: the reading loop ended
-deriving Repr, DecidableEq
-
-inductive SrvOut where
-  | stored                               -- intermediate chunk kept / abort: pending cleared
-  | accepted (req : Nat)                 -- message validated and dispatched; response carries `req`
-  | rejected (code : String)             -- Err(code): connection closes
-  | closed                               -- nothing is read any more
-  | panic
-deriving Repr, DecidableEq
-
-/-- `TcpTransport::process_chunk` + `process_final_chunk` for a MSG chunk whose body completes a
-decodable request when it is final -/
-def Srv.chunk (s : Srv) (c : CI) (f : Fin) : Srv × SrvOut :=
-  if s.closed then (s, .closed) else
-  match f with
-  | .abort => ({ s with pending := [] }, .stored)
-  | .intermediate => ({ s with pending := s.pending ++ [c] }, .stored)
-  | .final =>
-    let chunks := s.pending ++ [c]
-    match recv s.last s.chanId (chunks.map some) with
-    | .ok last' =>
-      let req := match chunks with
-        | c0 :: _ => c0.req
-        | [] => 0
-      ({ s with pending := [], last := last' }, .accepted req)
-    | .err e => ({ s with pending := [], closed := true }, .rejected e)
-    | .panic => (s, .panic)
+/- The server's chunk collection (`process_chunk` / `process_final_chunk`) is modelled in full —
+every chunk type and flag, before and after Hello / OpenSecureChannel — in `Model/SrvConn.lean`;
+the C12 driver delegates its server ops to it. -/
 
 /-! ### MessageWriter (server side sender) -/
 
